@@ -254,6 +254,22 @@ type c20Broker struct {
 	rogueClosed    map[int]bool
 	legit          net.Conn
 	reqs           int
+	reqStream      *stream.Stream // the last request's broker connection (kept open): replies can be written later
+}
+
+// reply writes a broker reply on the last request's connection.
+func (b *c20Broker) reply(ok bool) {
+	b.mu.Lock()
+	st := b.reqStream
+	b.mu.Unlock()
+	if st == nil {
+		return
+	}
+	if ok {
+		_ = ccb.WriteControlAd(context.Background(), st, ccb.NewAd(map[string]any{ccb.AttrResult: true}))
+	} else {
+		_ = ccb.WriteControlAd(context.Background(), st, ccb.NewAd(map[string]any{ccb.AttrResult: false, ccb.AttrErrorString: "scripted broker failure"}))
+	}
 }
 
 func startC20Broker(script []string) (*c20Broker, error) {
@@ -276,6 +292,7 @@ func startC20Broker(script []string) (*c20Broker, error) {
 		b.mu.Lock()
 		b.reqs++
 		b.opened = append(b.opened, c.Stream.GetConnection())
+		b.reqStream = c.Stream
 		b.mu.Unlock()
 		script := b.script
 		if b.shared != nil {
